@@ -449,7 +449,20 @@ def install(world):
         raise Unsupported('next()')
     reg('next', b_next, True)
 
+    def _quant_seq(x, forall):
+        # all()/any() over a sequence of symbolic length: a quantifier
+        k = z3.Int(S.fresh_name('k'))
+        body = S.as_bool_term(S.truth(x.get(k)))
+        rng = z3.And(k >= 0, k < x.length)
+        return SBool(z3.ForAll([k], z3.Implies(rng, body)) if forall
+                     else z3.Exists([k], z3.And(rng, body)))
+
     def b_all(it, node, x):
+        if isinstance(x, MList):
+            x = x.seq
+        if isinstance(x, SSeq) and not z3.is_int_value(
+                z3.simplify(x.length)):
+            return _quant_seq(x, True)
         items = it.concrete_items(x) if not isinstance(x, (tuple, list)) \
             else x
         terms = [S.as_bool_term(it.truth(t)) for t in items]
@@ -457,6 +470,11 @@ def install(world):
     reg('all', b_all, True)
 
     def b_any(it, node, x):
+        if isinstance(x, MList):
+            x = x.seq
+        if isinstance(x, SSeq) and not z3.is_int_value(
+                z3.simplify(x.length)):
+            return _quant_seq(x, False)
         items = it.concrete_items(x) if not isinstance(x, (tuple, list)) \
             else x
         terms = [S.as_bool_term(it.truth(t)) for t in items]
